@@ -102,9 +102,11 @@ def run(tier):
     ctx.cov["rule"] = ("function bodies derived by TLC from spec/CStmt.tla up to MaxNodes statement nodes over the full alphabet "
                        "(30 productions incl. pragma lines and _Pragma at item and sub-statement positions), deeper over a reduced "
                        "alphabet and over a switch-focused alphabet; a case is a distinct body")
-    plans = [("all productions, <=3 nodes", 3, ALL), ("switch-focused, <=5 nodes", 5, SWITCHY), ("reduced alphabet, <=4 nodes", 4, REDUCED)]
+    plans = [("all productions, <=3 nodes", 3, ALL), ("switch-focused, <=5 nodes", 5, SWITCHY), ("reduced alphabet, <=4 nodes", 4, REDUCED),
+             ("nested switches and runs of labels, <=7 nodes", 7, ["expr", "compound2", "switch", "case", "default", "break"])]
     if tier == "thorough":
-        plans = [("all productions, <=4 nodes", 4, ALL), ("switch-focused, <=6 nodes", 6, SWITCHY), ("reduced alphabet, <=5 nodes", 5, REDUCED)]
+        plans = [("all productions, <=4 nodes", 4, ALL), ("switch-focused, <=6 nodes", 6, SWITCHY), ("reduced alphabet, <=5 nodes", 5, REDUCED),
+                 ("nested switches and runs of labels, <=8 nodes", 8, ["expr", "compound2", "compound3", "switch", "case", "default", "break"])]
     allc = []
     for label, nodes, kinds in plans:
         cases = enumerate_bodies(ctx, label, nodes, kinds)
